@@ -3,4 +3,5 @@ From LTV.C20 Require Import Model.
 Set Extraction Optimize.
 Extraction Language OCaml.
 Extraction "extracted/c20_model.ml" start step current_fixes all_fixes reject_build mask_num msize bytes_of
-  send_metadata_piece send_metadata_piece_old params_ok.
+  send_metadata_piece send_metadata_piece_old params_ok
+  do_peer_exchange erase_conn init default_conn set_conns.
